@@ -132,6 +132,12 @@ def run(ctx):
             raise vlib.Infra("observer RelayMon did not consume the trace (%s)\n%s" % (r.violated, r.out[-3000:]))
     # 5. strict conformance (advisory)
     strict(ctx, tpath)
+    # 6. C21, client half: a Send reports success only after the relay forwarded the partner's ack for that very message
+    if prop == "C21":
+        from checks import sigclient
+        rule = ctx.rule
+        sigclient.run(ctx)
+        ctx.rule = rule + "; plus all relay histories of ClientEnv.tla (send side) against the real client: Send success implies the ack of that message was forwarded"
 
 
 def strict(ctx, tpath):
